@@ -65,14 +65,24 @@ pub fn candidates(seed: u64) -> Vec<Value> {
     let mut s = seed.wrapping_add(2718);
     let mut nx = |n: u64| { s = s.wrapping_mul(6364136223846793005).wrapping_add(1442695040888963407); (s >> 33) % n };
     out.push(json!({"case": "dtree_cnf", "cnf": [[1, -2], [2, 3], [3, 4]], "order": [0, 1, 2, 3]}));
-    for _ in 0..500 {
-        let nv = 2 + nx(4);
+    // independent components (the final composition in from_cnf) and labels that occur in no clause
+    for cnf in [json!([[1], [2]]), json!([[1, 2], [3, 4]]), json!([[1, 2], [3, 4], [5]]), json!([[1, -2], [2, 3], [5, 6], [-6, 7], [9]]), json!([[2], [4]])] {
+        let mx = cnf.as_array().unwrap().iter().flat_map(|c| c.as_array().unwrap().iter().map(|l| l.as_i64().unwrap().unsigned_abs())).max().unwrap();
+        let order: Vec<u64> = (0..mx).collect();
+        out.push(json!({"case": "dtree_cnf", "cnf": cnf, "order": order}));
+        let rev: Vec<u64> = (0..mx).rev().collect();
+        out.push(json!({"case": "dtree_cnf", "cnf": cnf, "order": rev}));
+    }
+    for k in 0..700 {
+        let nv = 2 + nx(5);
         let ncl = 1 + nx(6);
         let mut cnf: Vec<Vec<i64>> = (0..ncl).map(|_| (0..1 + nx(3)).map(|_| { let v = 1 + nx(nv) as i64; if nx(2) == 0 { v } else { -v } }).collect()).collect();
-        // make sure every variable occurs (orders range over exactly the CNF's variables)
-        cnf.push((1..=nv as i64).collect());
-        let mut order: Vec<u64> = (0..nv).collect();
-        for i in (1..nv as usize).rev() { let j = nx(i as u64 + 1) as usize; order.swap(i, j); }
+        // half of the cases: one clause over all variables (a connected formula); the others may fall into independent
+        // components and may skip labels.  The elimination order always ranges over 0..=largest label.
+        if k % 2 == 0 { cnf.push((1..=nv as i64).collect()); }
+        let mx = cnf.iter().flat_map(|c| c.iter().map(|l| l.unsigned_abs())).max().unwrap_or(1);
+        let mut order: Vec<u64> = (0..mx).collect();
+        for i in (1..mx as usize).rev() { let j = nx(i as u64 + 1) as usize; order.swap(i, j); }
         out.push(json!({"case": "dtree_cnf", "cnf": cnf, "order": order}));
     }
     out
